@@ -206,6 +206,12 @@ class Sym:
         code = self.app('FMT', self.ints(t) + [f.code], I)
         return VStr(code=code, sym=('fmt', t, f))
     def mk_fstr(self, vals, nodes):
+        # the library's hex formatter: f"#{r:02x}{g:02x}{b:02x}" over three ints
+        import ast as _ast
+        if (len(nodes) == 4 and isinstance(nodes[0], _ast.Constant) and nodes[0].value == '#' and all(isinstance(n, _ast.FormattedValue) and n.format_spec is not None
+                and _ast.unparse(n.format_spec) in ("f'02x'", 'f"02x"') for n in nodes[1:]) and all(isinstance(v, VInt) for v in vals[1:])):
+            t = VTuple(vals[1:])
+            return VStr(code=self.app('HEX6', self.ints(t), I), sym=('hex6', t))
         parts = []
         for v, n in zip(vals, nodes):
             parts.append(v)
@@ -231,7 +237,7 @@ class Sym:
         if v.lit is not None: return z3.BoolVal(len(v.lit) > 0)
         if v.sym:
             k = v.sym[0]
-            if k in ('rgbstr', 'fmt'): return self.true       # 'rgb(…)' / C06 lemma: every formatted value is non-empty
+            if k in ('rgbstr', 'fmt', 'hex6'): return self.true       # 'rgb(…)' / '#rrggbb' / C06 lemma: every formatted value is non-empty
             if k == 'fstr' and any(isinstance(x, VStr) and x.lit for x in v.sym[1]): return self.true
             if k == 'strof': return self.true
         return self.app('NONEMPTY', [v.code], B)
